@@ -66,6 +66,15 @@ func Regular(g *Gen) string {
 	return strings.Join(parts, sep)
 }
 
+// RegularBin is Regular with one byte sequence that is NOT valid UTF-8 in the
+// middle of a word (a raw key, a Latin-1 file name, a string cut mid-rune).
+func RegularBin(g *Gen) string {
+	s := Regular(g)
+	bin := []string{"\xff\xfe", "\xc3\x28", "\xe6\x97", "\x80"}[g.R.Intn(4)]
+	i := strings.Index(s, "zq") + 1
+	return s[:i] + bin + s[i:]
+}
+
 var hostileParts = []string{"‹", "›", "\n", "", "\x00", "\xff\xfe", "%s", "%d", "%!v(X)", "‹x›", "›‹", "\n\n", " ", ": ", "?", "×", "‹×›", "a", "\t", "\r", "‹\n›", "%w", "\\"}
 
 // Hostile strings: marker runes, newlines at any position, NUL,
@@ -146,6 +155,8 @@ func (g *Gen) Make(kind string, kids, hidden []*Node) *Node {
 		n.N = []int{r.Intn(len(RuntimeErrors))}
 	case "tags", "tagsafe":
 		n.N = []int{r.Intn(100)}
+	case "stacksafeleaf":
+		n.N = []int{r.Intn(2)} // 1: the recorded stack has exactly ONE frame
 	case "http":
 		n.N = []int{400 + r.Intn(200)}
 		if r.Intn(8) == 0 {
